@@ -98,6 +98,30 @@ theorem public_futures_register_where_expected :
 /-- the `Drop` implementations only remove the dropped stream's OWN entries -/
 theorem drop_cleans_only_stream_tables : ∀ p ∈ dropCleans, kind p.2 = .map := by decide
 
+/-- A STREAM HALF'S `Drop` ONLY REMOVES ENTRIES OF TABLES THAT HALF REGISTERS IN: for every `(type, table)` the
+    `Drop` implementations clean, some method of that type registers in the table — and no method of any other type
+    does. (`stopped` and `writable` belong to `SendStream`, `readable` to `RecvStream`; the two halves of a
+    bidirectional stream share one `StreamId`, so a `RecvStream::drop` touching `stopped` would discard the waker of
+    a task parked in `send.stopped()`.) -/
+theorem drop_only_cleans_tables_of_the_dropped_half :
+    dropCleans.all (fun p => Reg.all.any (fun r => Reg.owner r == p.1 && registersIn r == p.2)) = true ∧
+    dropCleans.all (fun p => Reg.all.all (fun r => registersIn r != p.2 || Reg.owner r == p.1)) = true := by
+  decide
+
+/-- … hence, in every state, dropping one half keeps every waker registered through the other half (or through the
+    connection) registered -/
+theorem dropping_a_half_keeps_the_other_halfs_waiters (s : St) (send : Bool) (id : Nat) (r : Reg) (e : Entry)
+    (he : e ∈ s.tabs (registersIn r)) (ho : Reg.owner r ≠ (if send then "SendStream" else "RecvStream")) :
+    e ∈ (s.dropStream (if send then "SendStream" else "RecvStream") id).tabs (registersIn r) :=
+  dropStream_keeps_other_half s _ id r e he ho
+
+/-- non-vacuity: a task parked in `stopped()` on bi stream 4, the `RecvStream` half of stream 4 dropped by another
+    task (admissible!), then close: the parked task is woken -/
+example :
+    let ops := [Op.poll .sendStreamStopped 4 1, .poll .recvStreamExecutePollRead 4 2, .cancel .recvStreamExecutePollRead 4 2,
+                .dropStream false 4]
+    allAdmissible World.init ops = true ∧ ((World.init.run ops).step .close).1.st.woken = [1] := by decide
+
 /-! ## 2. `terminate`: for every state -/
 
 /-- after `terminate(e)`: every table is empty, the error is stored, every waker was woken exactly as many times
